@@ -1,8 +1,9 @@
 import MetricsVerif.Driver.Util
 import MetricsVerif.Model.OnceCell
+import MetricsVerif.Model.GlobalRec
 
 namespace MetricsVerif.Driver.OnceCell
-open MetricsVerif.Driver MetricsVerif.OnceCell
+open MetricsVerif.Driver MetricsVerif.OnceCell MetricsVerif.GlobalRec
 
 /-- thread program token: calls joined by `+`: `s<id>` = set recorder id, `l` = load -/
 def progTok (s : String) : Option (List Call) :=
@@ -12,6 +13,21 @@ def progTok (s : String) : Option (List Call) :=
     | ['l'] => some Call.load
     | 's' :: r => (String.ofList r).toNat?.map Call.set
     | _ => none)
+
+/-- API program token: `s<id>` = set_global_recorder(recorder id), `e` = emission without local recorder,
+    `x<id>` = emission inside with_local_recorder(local id) -/
+def gprogTok (s : String) : Option (List GCall) :=
+  if s == "-" then some [] else
+  (s.splitOn "+").mapM (fun c =>
+    match c.toList with
+    | ['e'] => some GCall.emit
+    | 's' :: r => (String.ofList r).toNat?.map GCall.install
+    | 'x' :: r => (String.ofList r).toNat?.map GCall.emitLocal
+    | _ => none)
+
+def showGRes : GRes → String
+  | .installed => "ok" | .rejected r => s!"err{r}"
+  | .sent .noop => "none" | .sent (.global r) => s!"some{r}" | .sent (.localRec l) => s!"local{l}"
 
 def schedTok (s : String) : Option (List Nat) :=
   if s == "-" then some [] else (s.splitOn ".").mapM String.toNat?
@@ -34,6 +50,19 @@ def handle (args : List String) : Option String :=
     let res := showList (fun (t : Thread) => showList showRes t.results |>.replace "," "+") s.threads
     let cell := match s.cell with | some r => toString r | none => "~"
     pure s!"{".".intercalate labels} | {res} | cell={cell}"
+  | ["grun", progs, sched] => do
+    -- the lookup layer of mod.rs on the real GLOBAL_RECORDER: API programs projected onto the cell machine
+    let gprogs ← listTok gprogTok progs
+    let sched ← schedTok sched
+    let o : Ord := { storeRelease := true, loadAcquire := true }
+    let (s, labels) := sched.foldl (fun (acc : Sys × List String) tid =>
+        let lbl := match acc.1.threads[tid]? with | some t => t.pc.label | none => "nothread"
+        (step o acc.1 tid, acc.2 ++ [lbl])) (ginit gprogs, [])
+    let res := showList (fun (r : List GRes) => showList showGRes r |>.replace "," "+") (gobserve gprogs s)
+    -- what a final emission on a fresh thread without local recorder reaches
+    let fin := match dispatch none (match s.state, s.cell with | 2, some r => Res.some r | _, _ => Res.none) with
+      | .global r => toString r | _ => "~"
+    pure s!"{".".intercalate labels} | {res} | cell={fin}"
   | _ => none
 
 end MetricsVerif.Driver.OnceCell
